@@ -147,27 +147,7 @@ func (c *callEngine) Call(ctx context.Context, params ...uint64) ([]uint64, erro
 }
 
 func (c *callEngine) addFrame(builder wasmdebug.ErrorBuilder, addr uintptr) (def api.FunctionDefinition, listener experimental.FunctionListener) {
-	eng := c.parent.parent.parent
-	cm := eng.compiledModuleOfAddr(addr)
-	if cm == nil {
-		// This case, the module might have been closed and deleted from the engine.
-		// We fall back to searching the imported modules that can be referenced from this callEngine.
-
-		// First, we check itself.
-		if checkAddrInBytes(addr, c.parent.parent.executable) {
-			cm = c.parent.parent
-		} else {
-			// Otherwise, search all imported modules. TODO: maybe recursive, but not sure it's useful in practice.
-			p := c.parent
-			for i := range p.importedFunctions {
-				candidate := p.importedFunctions[i].me.parent
-				if checkAddrInBytes(addr, candidate.executable) {
-					cm = candidate
-					break
-				}
-			}
-		}
-	}
+	cm := c.compiledModuleOfAddr(addr)
 
 	if cm != nil {
 		index := cm.functionIndexOf(addr)
@@ -183,6 +163,35 @@ func (c *callEngine) addFrame(builder wasmdebug.ErrorBuilder, addr uintptr) (def
 		}
 	}
 	return
+}
+
+// compiledModuleOfAddr returns the compiled module whose executable contains addr, or nil.
+func (c *callEngine) compiledModuleOfAddr(addr uintptr) *compiledModule {
+	if cm := c.parent.parent.parent.compiledModuleOfAddr(addr); cm != nil {
+		return cm
+	}
+	// This case, the module might have been closed and deleted from the engine.
+	// We fall back to searching the modules that can be referenced from this callEngine through imports.
+	return c.parent.compiledModuleOfAddrInImports(addr, map[*moduleEngine]struct{}{})
+}
+
+// compiledModuleOfAddrInImports searches m and, transitively, the modules it imports functions from.
+func (m *moduleEngine) compiledModuleOfAddrInImports(addr uintptr, seen map[*moduleEngine]struct{}) *compiledModule {
+	if _, ok := seen[m]; ok {
+		return nil
+	}
+	seen[m] = struct{}{}
+	if exe := m.parent.executable; len(exe) > 0 && checkAddrInBytes(addr, exe) {
+		return m.parent
+	}
+	for i := range m.importedFunctions {
+		if imported := m.importedFunctions[i].me; imported != nil {
+			if cm := imported.compiledModuleOfAddrInImports(addr, seen); cm != nil {
+				return cm
+			}
+		}
+	}
+	return nil
 }
 
 // clearUpper32Bits zeroes the upper halves of the uint64 slots which hold i32 and f32 values: the generated code
@@ -715,7 +724,7 @@ func (si *stackIterator) Next() bool {
 	}
 
 	addr := si.retAddrs[si.retAddrCursor]
-	cm := si.eng.compiledModuleOfAddr(addr)
+	cm := si.c.compiledModuleOfAddr(addr) // also finds modules closed while in use.
 	if cm != nil {
 		index := cm.functionIndexOf(addr)
 		def := cm.module.FunctionDefinition(cm.module.ImportFunctionCount + index)
@@ -753,6 +762,9 @@ func (f internalFunction) Definition() api.FunctionDefinition {
 func (f internalFunction) SourceOffsetForPC(pc experimental.ProgramCounter) uint64 {
 	upc := uintptr(pc)
 	cm := f.eng.compiledModuleOfAddr(upc)
+	if cm == nil { // The module was closed meanwhile.
+		return 0
+	}
 	return cm.getSourceOffset(upc)
 }
 
